@@ -158,7 +158,7 @@ def check(pid, tier, only=None, jobs=None, seed=0, quiet=False):
                                          'workdir': workdir,
                                          'analyses': [{'kind': 'main', 'post': post, 'timeout': timeout}]}))
         # twins + findings run over the first partition set as a whole? -> use each partition's label 'all' if unsplit
-        tw_t = ob.twin_timeout or max(20, min(60, timeout))
+        tw_t = ob.twin_timeout or max(30, min(120, timeout))
         if tier == 'thorough':
             tw_t = ob.thorough.get('twin_timeout', tw_t)
         plabels = ['all'] + [l for l, _ in ob.partitions(tier) if l != 'all']
